@@ -34,7 +34,12 @@ ASSUMPTIONS = [
     "A11 the encoding of Python semantics in eqlvc (DESIGN.md 2.2 / 11); mitigated by seeded-change runs",
     "T1 operator / mapping nodes occur once in an expression (tree above the leaves); only variables are shared",
     "T2 comparators and logical operators stand in condition position",
-    "LeafExt lemma schema about good_row (checked separately in lemmas/leafext.py against the quantified definition)",
+    "LeafExt lemma schema about good_row: proved by z3 from the quantified definition in lemmas/leafext.py on every run that "
+    "uses the interface contract (see coverage.lemmas); that each class's `own` clause has the shape the definition assumes is "
+    "by inspection of /verif/contracts",
+    "T3 selected expressions / the universal variable of for_all are evaluated as values; T4 an else-if whose left operand "
+    "yields nothing even when asked for false rows has no well-defined environment (empty variable domain)",
+    "R8 alias-once and the other interface clauses are proved for every override under contract and assumed for callees",
 ]
 
 
@@ -102,6 +107,19 @@ def check_property(prop, tier, jobs, use_cache=True):
         for sd in reg.standins(prop, tier):
             standins.append(run_standin(sd, seed))
 
+    # lemma schemas the interface proofs instantiate: checked against their quantified definition on every run
+    lemmas = []
+    uses_interface = any(hasattr(c, 'assume_row') for c in classes)
+    if uses_interface:
+        t1 = time.time()
+        try:
+            lr = subprocess.run([sys.executable, os.path.join(ROOT, 'lemmas', 'leafext.py')], capture_output=True, text=True, timeout=600)
+            lemmas.append({'name': 'LeafExt (lemmas/leafext.py, z3 with quantifiers)', 'status': 'proved' if lr.returncode == 0 else
+                           ('refuted' if lr.returncode == 1 else 'unknown'), 'output': lr.stdout.strip().splitlines(),
+                           'time_s': round(time.time() - t1, 2)})
+        except Exception as e:  # noqa
+            lemmas.append({'name': 'LeafExt', 'status': 'unknown', 'output': [repr(e)]})
+
     # ---- aggregate
     obligations = collections.OrderedDict()
     funcs = []
@@ -151,6 +169,9 @@ def check_property(prop, tier, jobs, use_cache=True):
             undecided.append(f"{o['name']}: solver returned unknown on {o['unknown']} path(s)")
     if n_obl == 0 and not standins:
         undecided.append("zero obligations generated")
+    for lm in lemmas:
+        if lm['status'] != 'proved':
+            undecided.append(f"lemma {lm['name']}: {lm['status']}")
 
     # ---- failures: known finding or violation
     known = load_known()
@@ -234,6 +255,7 @@ def check_property(prop, tier, jobs, use_cache=True):
         'failed_obligations': [{'name': o['name'], 'paths_failed': len(o['failed']),
                                 'signatures': [r.get('signature') for r in o['failed'][:4]]}
                                for o in obligations.values() if o['failed']],
+        'lemmas': lemmas,
         'known_findings_reported': known_lines,
         'undecided': undecided,
         'bounded_standins': [{k: v for k, v in sd.items() if k != 'failures'} | {'n_failures': len(sd.get('failures', []))}
